@@ -355,6 +355,22 @@ def goal_real_norm(rng):
                 A.rel('equals', T, S.mk_comb(A.c('power', S.funs(T, T, T)), S.mk_comb(A.c('power', S.funs(T, T, T)), x, A.num(T, 2)), A.num(T, Fraction(1, 2))), x),
                 A.rel('equals', T, A.binop('minus', T, A.binop('real_divide', T, x, A.num(T, 0)), A.binop('real_divide', T, x, A.num(T, 0))), A.num(T, 0)),
                 A.rel('equals', T, A.binop('times', T, A.num(T, 0), A.binop('real_divide', T, x, y)), A.num(T, 0))]
+        if rng.random() < 0.5:
+            # nat subtraction that mixes a variable part and numerals, under of_nat: (p + a) - b with a < b is NOT
+            # p + (a - b) = p; the claims below are what a normaliser gets when it truncates only the numeral part,
+            # treats the subtraction as an integer one, or moves the numeral across
+            nn = lambda v: A.num(S.NAT, v)
+            pv = rng.choice([n, m, A.binop('plus', S.NAT, n, m), A.binop('times', S.NAT, nn(2), m)])
+            a_, b_ = rng.randrange(0, 4), rng.randrange(1, 6)
+            lhs_n = A.binop('minus', S.NAT, A.binop('plus', S.NAT, pv, nn(a_)), nn(b_))
+            claims = [pv, A.binop('plus', S.NAT, pv, A.binop('minus', S.NAT, nn(a_), nn(b_))),
+                      A.binop('plus', S.NAT, A.binop('minus', S.NAT, pv, nn(b_)), nn(a_)),
+                      A.binop('minus', S.NAT, pv, nn(max(b_ - a_, 0))), lhs_n]
+            rhs_n = rng.choice(claims)
+            l_, r_ = on(lhs_n), on(rhs_n)
+            if rng.random() < 0.6:
+                l_, r_ = A.binop('plus', T, l_, x), A.binop('plus', T, r_, x)
+            return A.rel('equals', T, l_, r_) if rng.random() < 0.5 else A.rel('equals', T, r_, l_)
         return rng.choice(pool)
     e = gen_expr(rng, T, rng.choice([2, 3]), False, vars_)
     p = poly_of(e, vars_)
